@@ -281,6 +281,10 @@ def run_case(case, keep_log=False):
         "maxdepth": kinds["maxdepth"], "n": len(genesis),
         "kind": wl["kind"] + ":" + wl.get("family", ""),
     }
+    lf = graphgen.loop_facts(genesis)
+    for k in ("multi_header", "multi_exit", "multi_latch"):
+        if lf[k]:
+            res["reach"]["loop_" + k] = 1
     res["nontrivial"] = bool((kinds["branching"] or kinds["regions"]) and long_sched)
     res["log_digest"] = log.digest()
     if keep_log:
